@@ -13,6 +13,9 @@ for p in props:
     c = json.load(open(cj))
     if not c.get("registered", True):
         continue
+    # a check is registered only when its notes file exists (written last, when the check is finished)
+    if not os.path.exists(os.path.join(ROOT, "notes", p + ".md")) or "level_text" not in c:
+        continue
     claimed.add(p)
     checks.append({
         "property_id": p,
